@@ -54,6 +54,9 @@ def make_case(rules, docs):
     if built[0] != "ok":
         return None
     objs = [Rule(o.path, o.condition, cast={}) if r.get("empty_cast") else o for o, r in zip(built[1], rules)]
+    # some rules carry a doc block: it is not serialised, and plays no part in `==`
+    objs = [Rule(o.path, o.condition, cast=o.cast, doc={"description": ["what it is"], "examples": ["`x`"]})
+            if (i + len(rules)) % 4 == 0 else o for i, o in enumerate(objs)]
     empty_cast = any(r.get("empty_cast") for r in rules)
     if empty_cast:
         c.py = c.py.replace("s = Schema(", "s = Schema(  # NOTE: rules flagged empty_cast in the case are built with cast={}\n    ")
